@@ -4,6 +4,7 @@ import NriModel.Lemmas.WireProps
 import NriModel.Lemmas.WireOrder
 import NriModel.Lemmas.WireBytes
 import NriModel.Lemmas.WireDecodeWT
+import NriModel.Lemmas.WireMerge
 /-!
 Property theorems for C12 — both wire encodings of every protocol message agree.
 
@@ -159,6 +160,33 @@ example : decode demo 1 [48, 133, 0, 56, 0, 56, 1] =
 -- an int32 field given a 64-bit varint keeps the low 32 bits, as Go's int32(v) does
 example : decode demo 1 [48, 255, 255, 255, 255, 31] =
     some [.str [], .none, .list [], .smap [], .strs [], .int (-1), .int 0] := by rfl
+
+/-- **Concatenation = merge**: decoding the encoding of `a` followed by the encoding of `b`
+    yields `merge a b` (set scalars and strings of `b` overwrite, unset ones keep `a`'s,
+    repeated fields append, maps assign key by key, message fields merge recursively) — what
+    both Go decoders do when one message arrives split over several records or byte strings
+    (`UnmarshalVT` never resets its receiver). Merging into the empty message is the identity. -/
+theorem C12_concat (S : Schema) (hS : S.WF = true) (m : Nat) (a b : List Val)
+    (ha : WellTyped S m a = true) (hb : WellTyped S m b = true)
+    (hlen : (encode S m a ++ encode S m b).length < 2 ^ 64) :
+    decode S m (encode S m a ++ encode S m b) = some (merge S m a b) ∧
+    merge S m (emptyMsg S m) b = b := by
+  refine ⟨decode_append S hS m a b ha hb hlen, ?_⟩
+  have hlb : (encode S m b).length < 2 ^ 64 := by simp only [List.length_append] at hlen; omega
+  have h1 := decMsg_encode_merge S hS m (emptyMsg S m) b (wellTyped_emptyMsg S hS m) hb hlb
+    (encode S m b).length (Nat.le_refl _)
+  have h2 := C12_roundtrip S hS m b hb hlb
+  unfold decode at h2
+  rw [h2] at h1
+  exact (Option.some.inj h1).symm
+
+-- Outer{id:"a", opt:{5}, items:[{-1}], code:3} ++ Outer{opt:{} , items:[{1}], labels:{k:v}, code:7}
+example : decode demo 1
+      (encode demo 1 [.str [97], .msg [.int 5], .list [.msg [.int (-1)]], .smap [], .strs [], .int 3, .int 0] ++
+       encode demo 1 [.str [], .msg [.int 0], .list [.msg [.int 1]], .smap [([107], [118])], .strs [], .int 7, .int 0])
+    = some [.str [97], .msg [.int 5], .list [.msg [.int (-1)], .msg [.int 1]], .smap [([107], [118])],
+            .strs [], .int 7, .int 0] :=
+  (C12_concat demo (by decide) 1 _ _ (by decide) (by decide) (by decide)).1
 
 /-- **Field order is free**: the records of the fields of a message, written in any order
     of the fields (the records of one repeated field or map kept together), decode to the
